@@ -276,7 +276,12 @@ PROPS["C13"] = dict(
         H("c13_avx2_win65_at60", timeout=2700, unwindset=u13(65, 14), tier="thorough", bounds="65 bytes, 5-byte window at 60 (second boundary)"),
         H("c13_avx2_win40_at29_multi", timeout=1800, unwindset=u13(40, 36), tier="thorough", bounds="40 bytes multi-byte filler, 4-byte window at 29"),
         H("c13_avx2_win8_at2", timeout=900, unwindset=u13(8, 14), bounds="8 bytes (tail-only path), 6-byte window"),
-        H("c13_dispatch_win34_at29", timeout=1800, unwindset=u13(34, 14), tier="thorough", bounds="validate_utf8 dispatcher, avx2 solver-chosen", replay="trace"),
+        H("c13_avx2_win32_at24", timeout=1800, unwindset=u13(32, 16), tier="thorough", bounds="32 bytes exactly one chunk, 8-byte window at 24"),
+        H("c13_avx2_win40_at20_w16", timeout=2700, unwindset=u13(40, 16), tier="thorough", bounds="40 bytes, 16-byte window across the chunk boundary"),
+        H("c13_avx2_full33", timeout=2700, unwindset=u13(33, 16), tier="thorough", bounds="ALL 33-byte strings (fully symbolic)"),
+        H("c13_avx2_full66", timeout=2700, unwindset=u13(66, 16), tier="thorough", bounds="ALL 66-byte strings (fully symbolic)"),
+        H("c13_broadword_win40_at5_multi", timeout=1800, unwindset=u13(40, 36), tier="thorough", bounds="40 bytes multi-byte filler, 4-byte window at 5"),
+        H("c13_dispatch_len4", timeout=900, unwindset=u13(4), bounds="validate_utf8 / validate_utf8_simd wrappers == scalar, all 4-byte strings, avx2 solver-chosen", replay="trace"),
         H("c13_err_at_len7", timeout=600, unwindset=u13(7), bounds="line/column of every offset, all 7-byte buffers"),
         H("c13_err_at_len17", timeout=900, unwindset=u13(17), bounds="all 17-byte buffers (two 8-byte words + tail)"),
         H("c13_err_at_len26", timeout=1800, unwindset=u13(26), tier="thorough", bounds="all 26-byte buffers"),
